@@ -37,6 +37,9 @@ func getMetrics() metrics.Metrics {
 
 var tmpDirs []string
 
+// lastBadgerDir: the directory of the Badger store opened last (op `reopen`)
+var lastBadgerDir string
+
 func cleanupTmp() {
 	for _, d := range tmpDirs {
 		os.RemoveAll(d)
@@ -66,14 +69,20 @@ func newEngineUnder(opts map[string]string, under func(storage.KvStorage) storag
 		kv = imemkv.NewKvStorage()
 	case "badger":
 		base := os.Getenv("KB_TMP")
-		d, err := ioutil.TempDir(base, "kbbadger")
-		if err != nil {
-			panic(err)
+		d := opts["badgerdir"] // reopen: the directory of the store that was just closed
+		if d == "" {
+			var err error
+			d, err = ioutil.TempDir(base, "kbbadger")
+			if err != nil {
+				panic(err)
+			}
+			tmpDirs = append(tmpDirs, d)
 		}
-		tmpDirs = append(tmpDirs, d)
-		kv, err = ibadger.NewKvStorage(ibadger.Config{Dir: d})
-		if err != nil {
-			panic(err)
+		lastBadgerDir = d
+		var berr error
+		kv, berr = ibadger.NewKvStorage(ibadger.Config{Dir: d})
+		if berr != nil {
+			panic(berr)
 		}
 	case "tikv":
 		theAbandon = nil
